@@ -19,17 +19,48 @@ func authHelper(c *Ctx, rule string) *ssa.Function {
 	if store == nil {
 		return nil
 	}
+	reaches := func(fn *ssa.Function) bool {
+		return len(core.SplitFind(fn, nil, func(in ssa.Instruction) bool {
+			ci, ok := in.(ssa.CallInstruction)
+			return ok && ci.Common().StaticCallee() == store
+		})) > 0
+	}
+	var cands []*ssa.Function
 	for _, fn := range c.P.ModuleFuncs() {
-		if paramOfType(fn, typesPkg, "FetchNodeCredentialsInfo") == nil {
+		if paramOfType(fn, typesPkg, "FetchNodeCredentialsInfo") == nil || paramOfType(fn, typesPkg, "ServerLedActivationTokenNonce") != nil || fn.Parent() != nil {
 			continue
 		}
-		if len(callsTo(fn, store)) > 0 {
+		if reaches(fn) {
+			cands = append(cands, fn)
+		}
+	}
+	// the innermost one: it does not get to Store through another candidate
+	for _, fn := range cands {
+		inner := false
+		for _, other := range cands {
+			if other != fn && splitFuncs(fn, nil)[other] {
+				inner = true
+			}
+		}
+		if !inner {
 			c.R.Fn(core.FuncName(fn))
 			return fn
 		}
 	}
 	c.R.Unk(rule, "authorisation helper", "", "no function taking *FetchNodeCredentialsInfo calls (*NodeInformation).Store")
 	return nil
+}
+
+// splitFuncs: the functions fn was split into (unexported helpers, methods and
+// closures of its package reached through static calls), fn excluded.
+func splitFuncs(fn *ssa.Function, stop func(*ssa.Function) bool) map[*ssa.Function]bool {
+	out := map[*ssa.Function]bool{}
+	for _, site := range core.SplitFind(fn, stop, func(in ssa.Instruction) bool { _, ok := in.(*ssa.Return); return ok }) {
+		if site.Fn != fn {
+			out[site.Fn] = true
+		}
+	}
+	return out
 }
 
 // rangeOverRootPair reports whether v is an element of the literal
@@ -127,8 +158,9 @@ func c04Template(c *Ctx) {
 	}
 	r.Check(idOK, "R-C04.1", hname+" record.Id", p.Pos(rec.Pos()), "record ID = KeyIdFromPkix(request certificate key)", "record ID is not derived from the request's certificate key")
 
-	creates := callsNamed(H, "crypto/x509.CreateCertificate")
-	if len(creates) == 0 {
+	// (minting may live in a helper the authorisation function was split into)
+	createSites := core.SplitCalls(H, nil, "crypto/x509.CreateCertificate")
+	if len(createSites) == 0 {
 		r.Unk("R-C04.1", hname+" CreateCertificate", p.Pos(H.Pos()), "no certificate is minted")
 		return
 	}
@@ -136,165 +168,201 @@ func c04Template(c *Ctx) {
 		vp := core.PathOf(v)
 		return vp.Root == rec && vp.HasFields(f)
 	}
-	for i, cc := range creates {
-		pre := fmt.Sprintf("%s CreateCertificate#%d ", hname, i)
-		pos := p.Pos(cc.Pos())
-		var tmpl *ssa.Alloc
-		var tsubst map[ssa.Value]ssa.Value
-		if vals, subst, h := helperResult(cc.Call.Args[1]); h != nil && len(vals) == 1 {
-			r.Fn(core.FuncName(h))
-			core.WithSubst(subst, func() { tmpl, _ = core.Strip(vals[0]).(*ssa.Alloc) })
-			tsubst = subst
-		} else {
-			tmpl, _ = core.Strip(cc.Call.Args[1]).(*ssa.Alloc)
+	for i, site := range createSites {
+		i, cc, siteFn := i, site.Instr.(*ssa.Call), site.Fn
+		if siteFn != H {
+			r.Fn(core.FuncName(siteFn))
 		}
-		if tmpl == nil {
-			r.Unk("R-C04.1", pre+"template", pos, "template is not a local literal (nor one built by a single-return helper)")
-			continue
-		}
-		ts := storesOf(tmpl)
-		// values stored into the template are read in the frame that built it
-		inT := func(f func()) { core.WithSubst(tsubst, f) }
-		allowed := map[string]bool{"AuthorityKeyId": true, "SubjectKeyId": true, "ExtKeyUsage": true, "Subject.CommonName": true, "DNSNames": true, "KeyUsage": true, "SerialNumber": true, "NotBefore": true, "NotAfter": true}
-		var extra []string
-		for f, sts := range ts {
-			if allowed[f] {
-				continue
+		site.In(func() {
+			pre := fmt.Sprintf("%s CreateCertificate#%d ", hname, i)
+			pos := p.Pos(cc.Pos())
+			var tmpl *ssa.Alloc
+			var tsubst map[ssa.Value]ssa.Value
+			if vals, subst, h := helperResult(cc.Call.Args[1]); h != nil && len(vals) == 1 {
+				r.Fn(core.FuncName(h))
+				core.WithSubst(subst, func() { tmpl, _ = core.Strip(vals[0]).(*ssa.Alloc) })
+				tsubst = subst
+			} else {
+				tmpl, _ = core.Strip(cc.Call.Args[1]).(*ssa.Alloc)
 			}
-			// explicit false / zero is harmless for the CA flags
-			harmless := false
-			if f == "IsCA" || f == "BasicConstraintsValid" {
-				harmless = true
-				for _, s := range sts {
-					if b, isB := core.ConstBool(s.Val); !isB || b {
-						harmless = false
+			if tmpl == nil {
+				r.Unk("R-C04.1", pre+"template", pos, "template is not a local literal (nor one built by a single-return helper)")
+				return
+			}
+			ts := storesOf(tmpl)
+			// values stored into the template are read in the frame that built it
+			inT := func(f func()) { core.WithSubst(tsubst, f) }
+			allowed := map[string]bool{"AuthorityKeyId": true, "SubjectKeyId": true, "ExtKeyUsage": true, "Subject.CommonName": true, "DNSNames": true, "KeyUsage": true, "SerialNumber": true, "NotBefore": true, "NotAfter": true}
+			var extra []string
+			for f, sts := range ts {
+				if allowed[f] {
+					continue
+				}
+				// explicit false / zero is harmless for the CA flags
+				harmless := false
+				if f == "IsCA" || f == "BasicConstraintsValid" {
+					harmless = true
+					for _, s := range sts {
+						if b, isB := core.ConstBool(s.Val); !isB || b {
+							harmless = false
+						}
 					}
 				}
-			}
-			if !harmless {
-				extra = append(extra, f)
-			}
-		}
-		sort.Strings(extra)
-		r.Check(len(extra) == 0, "R-C04.1", pre+"template fields", pos, "only reviewed template fields are set; not a CA", "template sets "+strings.Join(extra, ",")+" (CA flag / unreviewed extension on a node leaf)")
-		// ExtKeyUsage exactly {ClientAuth}
-		eku := false
-		if s := ts["ExtKeyUsage"]; len(s) == 1 {
-			if elems, ok := sliceLiteralElems(s[0].Val); ok && len(elems) == 1 {
-				k, isK := core.ConstInt(elems[0])
-				eku = isK && k == 2
-			}
-		}
-		r.Check(eku, "R-C04.1", pre+"ExtKeyUsage", pos, "exactly {ClientAuth}", "extended key usage is not exactly client authentication")
-		// key usage has no CertSign (bit 32)
-		if s := ts["KeyUsage"]; len(s) == 1 {
-			k, isK := core.ConstInt(s[0].Val)
-			r.Check(isK && k&32 == 0, "R-C04.1", pre+"KeyUsage", pos, "no certificate-signing usage", "node leaf may sign certificates")
-		}
-		cn := false
-		inT(func() { cn = len(ts["Subject.CommonName"]) == 1 && recField(ts["Subject.CommonName"][0].Val, "Id") })
-		r.Check(cn, "R-C04.1", pre+"CommonName", pos, "CommonName = record ID", "CommonName is not the node's key ID")
-		dns := false
-		inT(func() {
-			for _, s := range ts["DNSNames"] {
-				if elems, ok := sliceLiteralElems(s.Val); ok && len(elems) >= 1 && recField(elems[0], "Id") {
-					dns = true
+				if !harmless {
+					extra = append(extra, f)
 				}
-				// append([]string{id}, more...) built in one expression
-				if base, _, ok := appendParts(s.Val); ok {
-					if elems, ok := sliceLiteralElems(base); ok && len(elems) >= 1 && recField(elems[0], "Id") {
+			}
+			sort.Strings(extra)
+			r.Check(len(extra) == 0, "R-C04.1", pre+"template fields", pos, "only reviewed template fields are set; not a CA", "template sets "+strings.Join(extra, ",")+" (CA flag / unreviewed extension on a node leaf)")
+			// ExtKeyUsage exactly {ClientAuth}
+			eku := false
+			if s := ts["ExtKeyUsage"]; len(s) == 1 {
+				if elems, ok := sliceLiteralElems(s[0].Val); ok && len(elems) == 1 {
+					k, isK := core.ConstInt(elems[0])
+					eku = isK && k == 2
+				}
+			}
+			r.Check(eku, "R-C04.1", pre+"ExtKeyUsage", pos, "exactly {ClientAuth}", "extended key usage is not exactly client authentication")
+			// key usage has no CertSign (bit 32)
+			if s := ts["KeyUsage"]; len(s) == 1 {
+				k, isK := core.ConstInt(s[0].Val)
+				r.Check(isK && k&32 == 0, "R-C04.1", pre+"KeyUsage", pos, "no certificate-signing usage", "node leaf may sign certificates")
+			}
+			cn := false
+			inT(func() { cn = len(ts["Subject.CommonName"]) == 1 && recField(ts["Subject.CommonName"][0].Val, "Id") })
+			r.Check(cn, "R-C04.1", pre+"CommonName", pos, "CommonName = record ID", "CommonName is not the node's key ID")
+			dns := false
+			inT(func() {
+				for _, s := range ts["DNSNames"] {
+					if elems, ok := sliceLiteralElems(s.Val); ok && len(elems) >= 1 && recField(elems[0], "Id") {
 						dns = true
 					}
+					// append([]string{id}, more...) built in one expression
+					if base, _, ok := appendParts(s.Val); ok {
+						if elems, ok := sliceLiteralElems(base); ok && len(elems) >= 1 && recField(elems[0], "Id") {
+							dns = true
+						}
+					}
 				}
-			}
-		})
-		r.Check(dns, "R-C04.1", pre+"DNSNames[0]", pos, "first DNS name = record ID", "first DNS name is not the node's key ID")
-		ski := false
-		inT(func() {
-			ski = len(ts["SubjectKeyId"]) == 1 && recField(ts["SubjectKeyId"][0].Val, "CertificatePublicKeyPkix")
-		})
-		r.Check(ski, "R-C04.1", pre+"SubjectKeyId", pos, "SubjectKeyId = the node's certificate key", "SubjectKeyId is not the node's certificate key (the listener pins this value)")
-		// parent / signer from one SigningParams() of the loop's root
-		parent := core.Strip(cc.Call.Args[2])
-		sp, pi := core.CallResult(parent)
-		sg, si := core.CallResult(core.Strip(cc.Call.Args[4]))
-		okSP := sp != nil && sp == sg && pi == 0 && si == 1 && core.CalleeName(sp.Common()) == "(*"+typesPkg+".RootCertificate).SigningParams"
-		r.Check(okSP, "R-C04.1", pre+"parent and signer", pos, "both from one SigningParams() call", "parent certificate and signing key do not come from the same root's SigningParams()")
-		if okSP {
-			rootV := sp.Call.Args[0]
-			rr, okR := rangeOverRootPair(rootV)
-			okLoad := false
-			if okR {
-				lc, li := core.CallResult(core.Strip(rr))
-				okLoad = lc != nil && li == 0 && core.CalleeName(lc.Common()) == typesPkg+".LoadRootCertificates"
-			}
-			r.Check(okR && okLoad, "R-C04.1", pre+"issuing roots", pos, "one certificate per {Current, Next} of the loaded roots", "certificates are not issued once per current and next root of the loaded root set")
-			for _, f := range []string{"NotBefore", "NotAfter"} {
-				okT := len(ts[f]) == 1
-				if okT {
-					inT(func() {
-						vp := core.PathOf(ts[f][0].Val)
-						okT = vp.Root == parent && vp.HasFields(f)
-					})
+			})
+			r.Check(dns, "R-C04.1", pre+"DNSNames[0]", pos, "first DNS name = record ID", "first DNS name is not the node's key ID")
+			ski := false
+			inT(func() {
+				ski = len(ts["SubjectKeyId"]) == 1 && recField(ts["SubjectKeyId"][0].Val, "CertificatePublicKeyPkix")
+			})
+			r.Check(ski, "R-C04.1", pre+"SubjectKeyId", pos, "SubjectKeyId = the node's certificate key", "SubjectKeyId is not the node's certificate key (the listener pins this value)")
+			// parent / signer from one SigningParams() of the loop's root
+			parent := core.Strip(cc.Call.Args[2])
+			sp, pi := core.CallResult(parent)
+			sg, si := core.CallResult(core.Strip(cc.Call.Args[4]))
+			okSP := sp != nil && sp == sg && pi == 0 && si == 1 && core.CalleeName(sp.Common()) == "(*"+typesPkg+".RootCertificate).SigningParams"
+			r.Check(okSP, "R-C04.1", pre+"parent and signer", pos, "both from one SigningParams() call", "parent certificate and signing key do not come from the same root's SigningParams()")
+			if okSP {
+				rootV := sp.Call.Args[0]
+				rr, okR := rangeOverRootPair(rootV)
+				okLoad := false
+				if okR {
+					lc, li := core.CallResult(core.Strip(rr))
+					okLoad = lc != nil && li == 0 && core.CalleeName(lc.Common()) == typesPkg+".LoadRootCertificates"
 				}
-				r.Check(okT, "R-C04.1", pre+f, pos, f+" = issuing root certificate's "+f, "leaf "+f+" is not the issuing root's (leaf could outlive its root)")
-			}
-			// bundle CA = that root's certificate
-			okB := false
-			for _, b := range H.Blocks {
-				for _, in := range b.Instrs {
-					if al, ok := in.(*ssa.Alloc); ok && namedType(al.Type(), typesPkg, "CertificateBundle") {
-						bs := storesOf(al)
-						if len(bs["CertificateDer"]) == 1 && core.Strip(bs["CertificateDer"][0].Val) == extractOf(cc, 0) {
-							if len(bs["CaCertificateDer"]) == 1 {
-								vp := core.PathOf(bs["CaCertificateDer"][0].Val)
-								okB = vp.Root == core.Strip(rootV) && vp.HasFields("CertificateDer")
+				r.Check(okR && okLoad, "R-C04.1", pre+"issuing roots", pos, "one certificate per {Current, Next} of the loaded roots", "certificates are not issued once per current and next root of the loaded root set")
+				for _, f := range []string{"NotBefore", "NotAfter"} {
+					okT := len(ts[f]) == 1
+					if okT {
+						inT(func() {
+							vp := core.PathOf(ts[f][0].Val)
+							okT = vp.Root == parent && vp.HasFields(f)
+						})
+					}
+					r.Check(okT, "R-C04.1", pre+f, pos, f+" = issuing root certificate's "+f, "leaf "+f+" is not the issuing root's (leaf could outlive its root)")
+				}
+				// bundle CA = that root's certificate
+				okB := false
+				for _, b := range siteFn.Blocks {
+					for _, in := range b.Instrs {
+						if al, ok := in.(*ssa.Alloc); ok && namedType(al.Type(), typesPkg, "CertificateBundle") {
+							bs := storesOf(al)
+							if len(bs["CertificateDer"]) == 1 && core.Strip(bs["CertificateDer"][0].Val) == extractOf(cc, 0) {
+								if len(bs["CaCertificateDer"]) == 1 {
+									vp := core.PathOf(bs["CaCertificateDer"][0].Val)
+									okB = vp.Root == core.Strip(rootV) && vp.HasFields("CertificateDer")
+								}
 							}
 						}
 					}
 				}
+				r.Check(okB, "R-C04.1", pre+"bundle", pos, "bundle = (minted leaf, issuing root's certificate)", "the bundle does not pair the minted leaf with its issuing root's certificate")
 			}
-			r.Check(okB, "R-C04.1", pre+"bundle", pos, "bundle = (minted leaf, issuing root's certificate)", "the bundle does not pair the minted leaf with its issuing root's certificate")
-		}
-		kp, okK := keyFromPkix(cc.Call.Args[3])
-		r.Check(okK && kp.Root == rec && kp.HasFields("CertificatePublicKeyPkix"), "R-C04.1", pre+"public key", pos, "certified key parsed from the node's certificate key", "the certified public key is not the node's certificate key")
+			kp, okK := keyFromPkix(cc.Call.Args[3])
+			r.Check(okK && kp.Root == rec && kp.HasFields("CertificatePublicKeyPkix"), "R-C04.1", pre+"public key", pos, "certified key parsed from the node's certificate key", "the certified public key is not the node's certificate key")
+		})
 	}
 
 	// R-C04.5
 	sk := recStores["ServerEncryptionPrivateKeyBytes"]
 	okMk := len(sk) == 1
+	// the buffer(s) the stored value denotes: a local make, or the value a key-generating helper returns
+	var buffers []ssa.Value
 	if okMk {
-		ms, isMs := core.Strip(sk[0].Val).(*ssa.MakeSlice)
-		okMk = isMs
-		if isMs {
-			k, isK := core.ConstInt(ms.Len)
-			okMk = isK && k == 32
-		} else if sl, isSl := core.Strip(sk[0].Val).(*ssa.Slice); isSl {
-			// make([]byte, 32) with constant length is lowered to slicing a new [32]byte
-			if al, isAl := sl.X.(*ssa.Alloc); isAl && strings.Contains(al.Type().String(), "[32]byte") {
-				okMk = true
+		eachSource(sk[0].Val, func(v ssa.Value) {
+			if core.IsNilConst(v) {
+				return
 			}
-		}
+			buffers = append(buffers, v)
+			switch x := v.(type) {
+			case *ssa.MakeSlice:
+				if k, isK := core.ConstInt(x.Len); !isK || k != 32 {
+					okMk = false
+				}
+			case *ssa.Slice:
+				// make([]byte, 32) with constant length is lowered to slicing a new [32]byte
+				if al, isAl := x.X.(*ssa.Alloc); !isAl || !strings.Contains(al.Type().String(), "[32]byte") {
+					okMk = false
+				}
+			default:
+				okMk = false
+			}
+		})
+		okMk = okMk && len(buffers) > 0
 	}
 	r.Check(okMk, "R-C04.5", hname+" server key buffer", p.Pos(rec.Pos()), "fresh 32-byte buffer", "server encryption private key is not a fresh 32-byte buffer")
 	store := c.P.Func("types", "(*NodeInformation).Store")
 	var readCall *ssa.Call
-	for _, ci := range core.AllCalls(H) {
-		if call, ok := ci.(*ssa.Call); ok && ci.Common().IsInvoke() && ci.Common().Method.Name() == "Read" && recField(ci.Common().Args[0], "ServerEncryptionPrivateKeyBytes") {
-			readCall = call
-		}
+	var readSite core.DeepSite
+	for _, site := range core.SplitFind(H, nil, func(in ssa.Instruction) bool {
+		ci, ok := in.(*ssa.Call)
+		return ok && ci.Common().IsInvoke() && ci.Common().Method.Name() == "Read" && len(ci.Common().Args) == 1
+	}) {
+		call := site.Instr.(*ssa.Call)
+		site.In(func() {
+			arg := call.Common().Args[0]
+			hit := recField(arg, "ServerEncryptionPrivateKeyBytes")
+			for _, b := range buffers {
+				if core.Strip(arg) == b {
+					hit = true
+				}
+			}
+			if hit {
+				readCall, readSite = call, site
+			}
+		})
 	}
 	if readCall == nil {
 		r.Bad("R-C04.5", hname+" server key fill", p.Pos(H.Pos()), "the server key buffer is not filled by Read from the random reader")
 	} else {
-		rp := core.PathOf(readCall.Common().Value)
-		r.Check(rp.HasFields("WithRandomReader"), "R-C04.5", hname+" server key source", p.Pos(readCall.Pos()), "filled from opts.WithRandomReader", "server key bytes do not come from the configured random reader")
+		okSrc := false
+		readSite.In(func() { okSrc = core.PathOf(readCall.Common().Value).HasFields("WithRandomReader") })
+		r.Check(okSrc, "R-C04.5", hname+" server key source", p.Pos(readCall.Pos()), "filled from opts.WithRandomReader", "server key bytes do not come from the configured random reader")
 		nv := extractOf(readCall, 0)
 		gs := []core.Guard{
 			core.ErrNil("Read", func(x *ssa.Call) bool { return x == readCall }),
 			core.EnumEq("n == 32", func(pp core.Path) bool { return pp.Root == nv && len(pp.Fields) == 0 }, 32),
 		}
-		for _, sc := range callsTo(H, store) {
+		for _, ssite := range core.SplitFind(H, nil, func(in ssa.Instruction) bool {
+			ci, ok := in.(*ssa.Call)
+			return ok && ci.Common().StaticCallee() == store
+		}) {
+			sc := ssite.Instr.(*ssa.Call)
 			for _, g := range gs {
 				res := core.CutReach(p, H, g, sc.Block())
 				r.CutOb(p, "R-C04.5", hname+" Store after "+g.Name, p.Pos(sc.Pos()), res, g)
@@ -303,9 +371,21 @@ func c04Template(c *Ctx) {
 	}
 
 	// R-C04.3
-	scs := callsTo(H, store)
-	for i, sc := range scs {
-		r.Check(core.Strip(sc.Call.Args[0]) == rec, "R-C04.3", fmt.Sprintf("%s Store#%d receiver", hname, i), p.Pos(sc.Pos()), "the built record is stored", "a different object than the built record is stored")
+	storeSites := core.SplitFind(H, nil, func(in ssa.Instruction) bool {
+		ci, ok := in.(*ssa.Call)
+		return ok && ci.Common().StaticCallee() == store
+	})
+	for i, ssite := range storeSites {
+		sc := ssite.Instr.(*ssa.Call)
+		okRecv := false
+		ssite.In(func() { okRecv = core.Strip(sc.Call.Args[0]) == ssa.Value(rec) })
+		r.Check(okRecv, "R-C04.3", fmt.Sprintf("%s Store#%d receiver", hname, i), p.Pos(sc.Pos()), "the built record is stored", "a different object than the built record is stored")
+		// when Store lives in a helper, "after Store" is judged from the call that leads to it
+		if len(ssite.Chain) > 0 {
+			if top, ok := ssite.Chain[0].(*ssa.Call); ok {
+				sc = top
+			}
+		}
 		after := reachFrom(sc.Block(), nil)
 		var late []string
 		for _, fs := range fieldStores(rec) {
@@ -339,15 +419,19 @@ func c04Template(c *Ctx) {
 		sort.Strings(late)
 		r.Check(len(late) == 0, "R-C04.3", fmt.Sprintf("%s Store#%d no later writes", hname, i), p.Pos(sc.Pos()), "no record field is written after Store", "record fields written after Store (stored record differs from the one used): "+strings.Join(late, ","))
 	}
-	for i, ret := range core.SuccessReturns(H) {
-		v := core.Strip(ret.Results[0])
-		ok := v == ssa.Value(rec)
-		if !ok {
-			if lc, li := core.CallResult(v); lc != nil && li == 0 && core.CalleeName(lc.Common()) == typesPkg+".LoadNodeInformation" {
-				ip := core.PathOf(lc.Call.Args[2])
-				ok = ip.Root == rec && ip.HasFields("Id")
+	for i, rsite := range tailReturnSites(H) {
+		ret := rsite.Instr.(*ssa.Return)
+		ok := false
+		rsite.In(func() {
+			v := core.Strip(ret.Results[0])
+			ok = v == ssa.Value(rec)
+			if !ok {
+				if lc, li := core.CallResult(v); lc != nil && li == 0 && core.CalleeName(lc.Common()) == typesPkg+".LoadNodeInformation" {
+					ip := core.PathOf(lc.Call.Args[2])
+					ok = ip.Root == rec && ip.HasFields("Id")
+				}
 			}
-		}
+		})
 		r.Check(ok, "R-C04.3", fmt.Sprintf("%s success-return#%d value", hname, i), p.Pos(ret.Pos()), "returns the stored record (or the record reloaded under its ID)", "returns a record other than the one stored")
 	}
 }
@@ -362,61 +446,67 @@ func c04Response(c *Ctx) {
 	K := a.K
 	// the response is for this request: nonce, certificate key and encryption key of K equal the request's
 	fetchBinding(c, a, "R-C04.2")
-	for i, e := range a.encrypts {
-		pos := p.Pos(e.Pos())
-		msg, ok := core.Strip(e.Call.Args[1]).(*ssa.Alloc)
-		if !ok || !namedType(msg.Type(), typesPkg, "NodeCredentials") {
-			r.Bad("R-C04.2", fmt.Sprintf("%s EncryptMessage#%d payload", name, i), pos, "payload is not a NodeCredentials literal")
-			continue
-		}
-		ms := storesOf(msg)
-		for _, f := range []string{"RegistrationNonce", "CertificateBundles"} {
-			okf := len(ms[f]) == 1
-			if okf {
-				vp := core.PathOf(ms[f][0].Val)
-				okf = vp.Root == K && vp.HasFields(f)
+	for i, site := range a.encSites {
+		i, e := i, site.Instr.(*ssa.Call)
+		site.In(func() {
+			pos := p.Pos(e.Pos())
+			msg, ok := core.Strip(e.Call.Args[1]).(*ssa.Alloc)
+			if !ok || !namedType(msg.Type(), typesPkg, "NodeCredentials") {
+				r.Bad("R-C04.2", fmt.Sprintf("%s EncryptMessage#%d payload", name, i), pos, "payload is not a NodeCredentials literal")
+				return
 			}
-			r.Check(okf, "R-C04.2", fmt.Sprintf("%s EncryptMessage#%d payload.%s", name, i, f), pos, f+" taken from the record K", f+" in the credentials is not the stored record's (e.g. echoes the request instead)")
-		}
-		// server public key derives from K.ServerEncryptionPrivateKeyBytes
-		okPub := false
-		if s := ms["ServerEncryptionPublicKeyBytes"]; len(s) == 1 {
-			okPub = derivesFromServerKey(s[0].Val, K)
-		}
-		r.Check(okPub, "R-C04.2", fmt.Sprintf("%s EncryptMessage#%d payload.ServerEncryptionPublicKeyBytes", name, i), pos, "public half of K's server encryption key", "server public key in the credentials is not derived from the record's server private key")
+			ms := storesOf(msg)
+			for _, f := range []string{"RegistrationNonce", "CertificateBundles"} {
+				okf := len(ms[f]) == 1
+				if okf {
+					vp := core.PathOf(ms[f][0].Val)
+					okf = vp.Root == K && vp.HasFields(f)
+				}
+				r.Check(okf, "R-C04.2", fmt.Sprintf("%s EncryptMessage#%d payload.%s", name, i, f), pos, f+" taken from the record K", f+" in the credentials is not the stored record's (e.g. echoes the request instead)")
+			}
+			// server public key derives from K.ServerEncryptionPrivateKeyBytes
+			okPub := false
+			if s := ms["ServerEncryptionPublicKeyBytes"]; len(s) == 1 {
+				okPub = derivesFromServerKey(s[0].Val, K)
+			}
+			r.Check(okPub, "R-C04.2", fmt.Sprintf("%s EncryptMessage#%d payload.ServerEncryptionPublicKeyBytes", name, i), pos, "public half of K's server encryption key", "server public key in the credentials is not derived from the record's server private key")
+		})
 	}
-	for i, ret := range a.credRets {
-		pos := p.Pos(ret.Pos())
-		resp, ok := core.Strip(ret.Results[0]).(*ssa.Alloc)
-		if !ok {
-			r.Unk("R-C04.2", fmt.Sprintf("%s credential-return#%d", name, i), pos, "response is not a literal")
-			continue
-		}
-		rs := storesOf(resp)
-		var enc *ssa.Call
-		if s := rs["EncryptedNodeCredentials"]; len(s) == 1 {
-			ec, ei := core.CallResult(core.Strip(s[0].Val))
-			if ec != nil && ei == 0 && core.CalleeName(ec.Common()) == mod+".EncryptMessage" {
-				enc = ec
+	for i, site := range a.retSites {
+		i, ret := i, site.Instr.(*ssa.Return)
+		site.In(func() {
+			pos := p.Pos(ret.Pos())
+			resp, ok := core.Strip(ret.Results[0]).(*ssa.Alloc)
+			if !ok {
+				r.Unk("R-C04.2", fmt.Sprintf("%s credential-return#%d", name, i), pos, "response is not a literal")
+				return
 			}
-		}
-		r.Check(enc != nil, "R-C04.2", fmt.Sprintf("%s credential-return#%d EncryptedNodeCredentials", name, i), pos, "the EncryptMessage result", "response does not carry the EncryptMessage result")
-		okSig := false
-		if s := rs["EncryptedNodeCredentialsSignature"]; len(s) == 1 && enc != nil {
-			sc, si := core.CallResult(core.Strip(s[0].Val))
-			if sc != nil && si == 0 && sc.Common().IsInvoke() && sc.Common().Method.Name() == "Sign" && core.Strip(sc.Common().Args[1]) == extractOf(enc, 0) {
-				// signer = #1 of roots.Current.SigningParams
-				pc, pi := core.CallResult(core.Strip(sc.Common().Value))
-				if pc != nil && pi == 1 && strings.HasSuffix(core.CalleeName(pc.Common()), ".RootCertificate).SigningParams") {
-					rp := core.PathOf(pc.Call.Args[0])
-					lc, li := core.CallResult(rp.Root)
-					okSig = rp.HasFields("Current") && lc != nil && li == 0 && core.CalleeName(lc.Common()) == typesPkg+".LoadRootCertificates"
+			rs := storesOf(resp)
+			var enc *ssa.Call
+			if s := rs["EncryptedNodeCredentials"]; len(s) == 1 {
+				ec, ei := core.CallResult(core.Strip(s[0].Val))
+				if ec != nil && ei == 0 && core.CalleeName(ec.Common()) == mod+".EncryptMessage" {
+					enc = ec
 				}
 			}
-		}
-		r.Check(okSig, "R-C04.2", fmt.Sprintf("%s credential-return#%d signature", name, i), pos, "Sign(_, encrypted credentials) by the current root's signer", "the response signature is not over the carried ciphertext by the server's current root")
-		okPub := len(rs["ServerEncryptionPublicKeyBytes"]) == 1 && derivesFromServerKey(rs["ServerEncryptionPublicKeyBytes"][0].Val, K)
-		r.Check(okPub, "R-C04.2", fmt.Sprintf("%s credential-return#%d server public key", name, i), pos, "public half of K's server encryption key", "server public key in the response is not derived from the record's server private key")
+			r.Check(enc != nil, "R-C04.2", fmt.Sprintf("%s credential-return#%d EncryptedNodeCredentials", name, i), pos, "the EncryptMessage result", "response does not carry the EncryptMessage result")
+			okSig := false
+			if s := rs["EncryptedNodeCredentialsSignature"]; len(s) == 1 && enc != nil {
+				sc, si := core.CallResult(core.Strip(s[0].Val))
+				if sc != nil && si == 0 && sc.Common().IsInvoke() && sc.Common().Method.Name() == "Sign" && core.Strip(sc.Common().Args[1]) == extractOf(enc, 0) {
+					// signer = #1 of roots.Current.SigningParams
+					pc, pi := core.CallResult(core.Strip(sc.Common().Value))
+					if pc != nil && pi == 1 && strings.HasSuffix(core.CalleeName(pc.Common()), ".RootCertificate).SigningParams") {
+						rp := core.PathOf(pc.Call.Args[0])
+						lc, li := core.CallResult(rp.Root)
+						okSig = rp.HasFields("Current") && lc != nil && li == 0 && core.CalleeName(lc.Common()) == typesPkg+".LoadRootCertificates"
+					}
+				}
+			}
+			r.Check(okSig, "R-C04.2", fmt.Sprintf("%s credential-return#%d signature", name, i), pos, "Sign(_, encrypted credentials) by the current root's signer", "the response signature is not over the carried ciphertext by the server's current root")
+			okPub := len(rs["ServerEncryptionPublicKeyBytes"]) == 1 && derivesFromServerKey(rs["ServerEncryptionPublicKeyBytes"][0].Val, K)
+			r.Check(okPub, "R-C04.2", fmt.Sprintf("%s credential-return#%d server public key", name, i), pos, "public half of K's server encryption key", "server public key in the response is not derived from the record's server private key")
+		})
 	}
 }
 
